@@ -317,6 +317,13 @@ def geom_call(st, rng):
         # tiny but non-negligible gradients (components >= 1e-10, far above the code's 1e-14 zero threshold) with a constant term of the same size
         g = grad_for(rng, st["sgn"], 10.0 ** rng.uniform(-9.0, -6.5))
         c = float(rng.choice([0.0, 1.0, -1.0])) * float(np.linalg.norm(g)) * Delta * float(rng.choice([0.0, 0.5, 2.0]))
+    at_threshold = rng.random() < 0.12
+    if at_threshold:
+        # gradient entries AT the code's zero threshold (1e-14): some or all of them are treated as zero.  Nothing is claimed about optimality there
+        # (the maximum itself is of the size of the threshold); the step must still be a finite point of the box and the ball, not worse than no step
+        g = np.array([(0.0 if s_ == "zero" else (1.0 if s_ == "pos" else -1.0)) * float(rng.uniform(4e-15, 2.5e-14)) for s_ in st["sgn"]])
+        if rng.random() < 0.5:
+            g = np.sign(g) * float(rng.uniform(7.2e-15, 9.9e-15))        # every entry below the threshold, the norm (for n >= 2) above it
     with warnings.catch_warnings(), np.errstate(all="ignore"):
         warnings.simplefilter("ignore")
         x = trsbox_geometry(xbase.copy(), c, g.copy(), lower.copy(), upper.copy(), Delta, use_fortran=False)
@@ -330,8 +337,9 @@ def geom_call(st, rng):
     best = geom_oracle(c, g, a, b, Delta)
     cl = [["box_1e-12", "C13", bool(np.all(x >= lower - t) and np.all(x <= upper + t))],
           ["norm_le_delta", "C13", bool(np.linalg.norm(s) <= Delta * (1 + 1e-8))],
-          ["global_max_1e-6", "C13", bool(val >= (1 - 1e-6) * best - 1e-300)],
-          ["not_worse_than_zero", "C13", bool(val >= abs(c) * (1 - 1e-12))]]
+          ["global_max_1e-6", "C13", bool(at_threshold or val >= (1 - 1e-6) * best - 1e-300)],
+          ["not_worse_than_zero", "C13", bool(val >= abs(c) * (1 - 1e-12))],
+          ["finite", "C13", bool(np.all(np.isfinite(x)))]]
     return dict(ev="Kernel", name="trsbox_geometry", cl=cl), dict(Delta=Delta)
 
 
@@ -379,6 +387,26 @@ def convex_call(st, rng, seed):
         xopt = c + off        # strictly inside every set (all sets contain a ball of radius >= 0.3 around c)
         g = grad_for(rng, st["sgn"], 10.0 ** rng.uniform(-2, 2))
     H = make_H(rng, n, st["hk"], 10.0 ** rng.uniform(-2, 1) * float(np.linalg.norm(g)) / Delta)
+    if st.get("act") == "just_outside":
+        # isotropic model whose unconstrained minimiser (resp. a linear model whose gradient) points a relative 1e-7 .. 1e-5 beyond the trust-region
+        # sphere, every set inactive: the last projection onto the ball has to pull the point back by that little
+        u = rng.normal(size=n)
+        u /= np.linalg.norm(u)
+        eps_out = 10.0 ** rng.uniform(-7.0, -5.0)
+        kappa = 10.0 ** rng.uniform(-1, 1)
+        H = kappa * np.eye(n)
+        g = -kappa * (1.0 + eps_out) * Delta * u
+        if st["kernel"] == "ctrsbox_geometry":
+            g = (1.0 + eps_out) * Delta * u
+        if float(np.linalg.norm(xopt - c)) + 1.2 * Delta > 0.3:
+            Delta_ok = False
+        else:
+            Delta_ok = True
+        if not Delta_ok:
+            # keep every set inactive: shrink the problem around xopt (all sets contain the ball of radius 0.3 around c)
+            sc_ = 0.05 / Delta
+            Delta, g = Delta * sc_, g * sc_
+            H = H
     with warnings.catch_warnings(), np.errstate(all="ignore"):
         warnings.simplefilter("ignore")
         if st["kernel"] == "ctrsbox_pgd":
